@@ -33,6 +33,10 @@ type Pat struct {
 	Hi   rune    `json:"hi,omitempty"`
 	Ref  string  `json:"ref,omitempty"`
 	Subs []*Pat  `json:"s,omitempty"`
+	// FLo, FHi choose the spelling of the character literals Lo and Hi among
+	// CharForms (index modulo their number; 0 = canonical)
+	FLo int `json:"flo,omitempty"`
+	FHi int `json:"fhi,omitempty"`
 }
 
 func Lit(r rune) *Pat        { return &Pat{Kind: PLit, Lo: r} }
@@ -195,6 +199,62 @@ func CharLit(r rune) string {
 	return fmt.Sprintf(`'\U%08x'`, r)
 }
 
+// CharForms returns every spelling of rune r as a gocc character literal
+// (hex digits lower case); the first is the canonical one.
+func CharForms(r rune) []string {
+	forms := []string{CharLit(r)}
+	add := func(s string) {
+		for _, f := range forms {
+			if f == s {
+				return
+			}
+		}
+		forms = append(forms, s)
+	}
+	// raw
+	if r != '\'' && r != '\\' && r != '\n' && r != 0 && utf8.ValidRune(r) && r != utf8.RuneError {
+		add("'" + string(r) + "'")
+	}
+	if r < 256 {
+		add(fmt.Sprintf(`'\x%02x'`, r))
+		add(fmt.Sprintf(`'\%03o'`, r))
+	}
+	if r < 0x10000 {
+		add(fmt.Sprintf(`'\u%04x'`, r))
+	}
+	add(fmt.Sprintf(`'\U%08x'`, r))
+	switch r {
+	case 7:
+		add(`'\a'`)
+	case 8:
+		add(`'\b'`)
+	case 12:
+		add(`'\f'`)
+	case 10:
+		add(`'\n'`)
+	case 13:
+		add(`'\r'`)
+	case 9:
+		add(`'\t'`)
+	case 11:
+		add(`'\v'`)
+	case '\\':
+		add(`'\\'`)
+	case '\'':
+		add(`'\''`)
+	}
+	return forms
+}
+
+// CharLitForm is the k-th spelling (modulo their number) of rune r.
+func CharLitForm(r rune, k int) string {
+	if k <= 0 {
+		return CharLit(r)
+	}
+	f := CharForms(r)
+	return f[k%len(f)]
+}
+
 // Tokens renders the pattern as a list of gocc source tokens.
 func (p *Pat) Tokens() []string {
 	var out []string
@@ -205,9 +265,9 @@ func (p *Pat) Tokens() []string {
 func (p *Pat) tokens(out *[]string) {
 	switch p.Kind {
 	case PLit:
-		*out = append(*out, CharLit(p.Lo))
+		*out = append(*out, CharLitForm(p.Lo, p.FLo))
 	case PRange:
-		*out = append(*out, CharLit(p.Lo), "-", CharLit(p.Hi))
+		*out = append(*out, CharLitForm(p.Lo, p.FLo), "-", CharLitForm(p.Hi, p.FHi))
 	case PDot:
 		*out = append(*out, ".")
 	case PRef:
